@@ -219,6 +219,69 @@ func vUpdates(us []*api.ContainerUpdate) string {
 	return strings.Join(parts, ",")
 }
 
+// vMergeUpdates folds the updates collected later into the earlier ones (per container, field by field, later wins): the
+// harness' own satisfiability probes write to the cache after Synchronize has replied; what they left pending is what the
+// runtime would be told with the next reply, and is delivered to the driver with this one
+func vMergeUpdates(first, later []*api.ContainerUpdate) []*api.ContainerUpdate {
+	byID := map[string]*api.ContainerUpdate{}
+	out := []*api.ContainerUpdate{}
+	for _, u := range first {
+		byID[u.ContainerId] = u
+		out = append(out, u)
+	}
+	for _, u := range later {
+		o, ok := byID[u.ContainerId]
+		if !ok {
+			byID[u.ContainerId] = u
+			out = append(out, u)
+			continue
+		}
+		lr := u.GetLinux().GetResources()
+		if lr == nil {
+			continue
+		}
+		if o.Linux == nil {
+			o.Linux = &api.LinuxContainerUpdate{}
+		}
+		if o.Linux.Resources == nil {
+			o.Linux.Resources = &api.LinuxResources{}
+		}
+		or := o.Linux.Resources
+		if c := lr.Cpu; c != nil {
+			if or.Cpu == nil {
+				or.Cpu = &api.LinuxCPU{}
+			}
+			if c.Cpus != "" {
+				or.Cpu.Cpus = c.Cpus
+			}
+			if c.Mems != "" {
+				or.Cpu.Mems = c.Mems
+			}
+			if c.Shares != nil {
+				or.Cpu.Shares = c.Shares
+			}
+			if c.Quota != nil {
+				or.Cpu.Quota = c.Quota
+			}
+			if c.Period != nil {
+				or.Cpu.Period = c.Period
+			}
+		}
+		if m := lr.Memory; m != nil {
+			if or.Memory == nil {
+				or.Memory = &api.LinuxMemory{}
+			}
+			if m.Limit != nil {
+				or.Memory.Limit = m.Limit
+			}
+			if m.Swap != nil {
+				or.Memory.Swap = m.Swap
+			}
+		}
+	}
+	return out
+}
+
 func vZeroDash(v int64) string {
 	if v == 0 {
 		return "-"
@@ -1089,6 +1152,8 @@ func (h *vHarness) vRunHistory(w *bufio.Writer, rng *rand.Rand, wd *vWorld, nEve
 							fmt.Fprintf(w, "X notcached %s\n", nc.Id)
 						}
 					}
+					// whatever the probes left pending belongs to this reply (see vMergeUpdates)
+					upd = vMergeUpdates(upd, h.m.nri.getPendingUpdates(nil))
 				}
 				return upd, err
 			})
